@@ -15,6 +15,10 @@ import CJ.Drv.Codec
   parsed IP | FAIL>;…` — what `net.ParseIP(strings.TrimSpace(candidate))` answers. A candidate that is not
   in the table is not defaulted: the answer is `missing-key <candidate hex>`.
   Answers `ip nil` / `ip <hex of the chosen IP string>` / `panic index out of range`.
+* `reghist|<op>,<op>…` — a history of operations on a fresh registrar: `reload` or a request kind
+  (`nopayload`, `sel4err`, `sel6err`, `unknowntransport`, `badparams`, `ok`: the exit of `processBdReq` it
+  takes); answers `<answer>,… held=<leaked read locks>` with answers `nobody` / `error` / `response` /
+  `reloaded` / `blocked`.
 Answers: a verdict, `status <code>`, `panic <site>`, `hang`. -/
 namespace CJ.Drv.Ingress
 open CJ.Codec CJ.Ingress CJ.Drv
@@ -90,8 +94,33 @@ def showIp : Option String → String
     | c :: rest => if c == missingMark then "missing-key " ++ String.ofList rest else "ip " ++ toHex (stringToBytes s)
     | [] => "ip -"
 
+/-- the request kinds of the registrar histories: which exit of `processBdReq` they take -/
+def histReq (k : String) : Option BdReq :=
+  let ok : BdReq := ⟨true, true, true, true, some [10, 1, 2, 3], some [1], true, true, true, true⟩
+  if k == "nopayload" then some { ok with hasPayload := false }
+  else if k == "sel4err" then some { ok with select4 := none }
+  else if k == "sel6err" then some { ok with v4 := false, select6 := none }
+  else if k == "unknowntransport" then some { ok with transportKnown := false }
+  else if k == "badparams" then some { ok with paramsOk := false }
+  else if k == "ok" then some ok
+  else none
+
+def showRegAnswer : RegAnswer → String
+  | .answered (.ok .response) => "response"
+  | .answered (.ok .errNoC2SBody) => "nobody"
+  | .answered (.ok .errOther) => "error"
+  | .answered (.err _) => "error"
+  | .answered (.panic _) => "panic-or-hang"
+  | .answered .hang => "panic-or-hang"
+  | .reloaded => "reloaded"
+  | .blocked => "blocked"
+
 def handle (args : List String) : Option String :=
   match args with
+  | ["reghist", ops] => do
+    let l ← (fields ops ",").mapM fun o => if o == "reload" then some RegOp.reload else (histReq o).map RegOp.request
+    let (s, as) := regRun false {} l
+    some (",".intercalate (as.map showRegAnswer) ++ s!" held={s.readers}")
   | ["min", data, ids] => do
     let ids ← (fields ids ",").mapM parseHex
     some (showOut showVerdict (wrapMin (← parseHex data) (fun id => ids.contains id)))
